@@ -509,6 +509,7 @@ type FuncContract struct {
 	Calls    map[string][]string // function-valued parameter -> candidate callees
 	Fuel     int
 	Ghost    []string
+	Defines  []Clause        // `defines E`: names the function's effect by an otherwise unconstrained spec function; assumed by callers, not an obligation of the body
 	Lifts    []Clause        // `lift lemma(args)`: the lemma (declared `lifted pkg.Func`) is this function's behaviour over its functional abstraction
 	Props    map[string]bool // for pinned blocks
 	Classes  []string
@@ -537,7 +538,7 @@ var clauseKeywords = map[string]bool{
 	"func": true, "cases": true, "requires": true, "ensures": true, "modifies": true,
 	"panics": true, "pure": true, "loop": true, "invariant": true, "decreases": true,
 	"assert": true, "use": true, "let": true, "mode": true, "trusted": true, "assumes": true,
-	"classes": true, "property": true, "inline": true, "coarse": true, "assume": true, "reads": true, "wraps": true, "fuel": true, "unroll": true, "calls": true, "havoc": true, "ghost": true, "lift": true,
+	"classes": true, "property": true, "inline": true, "coarse": true, "assume": true, "reads": true, "wraps": true, "fuel": true, "unroll": true, "calls": true, "havoc": true, "ghost": true, "lift": true, "defines": true,
 }
 
 type rawLine struct {
@@ -630,6 +631,12 @@ func parseContractLines(lines []rawLine, pkg string) ([]*FuncContract, error) {
 			} else {
 				cur.Ensures = append(cur.Ensures, c)
 			}
+		case "defines":
+			c, err := mkClause(rest, l)
+			if err != nil {
+				return nil, err
+			}
+			cur.Defines = append(cur.Defines, c)
 		case "panics":
 			if strings.HasPrefix(rest, "only when") {
 				cur.PanicsOnly = true
